@@ -1,0 +1,56 @@
+//go:build verif
+
+package rulelist
+
+// Contracts for govc (see /verif/DESIGN.md).  This file is comment-only and is compiled only with -tags=verif.
+
+// ---- C15: rule-list parser ----
+
+//@ ghost var parseOK bool
+
+//@ define binaryByte(b byte) bool = (b < 32 || b == 127) && b != 10 && b != 13 && b != 9
+
+//@ func likelyBinary(b byte) (ok bool)
+//@   property C15
+//@   modifies nothing
+//@   ensures ok == binaryByte(b)
+
+// A line is a rule iff it is non-empty, not a comment ('#' or '!') and has no likely-binary byte.
+//@ func parseLine(line []byte) (badIdx int, isRule bool)
+//@   property C15
+//@   modifies nothing
+//@   ensures isRule == (badIdx == -1 && len(line) > 0 && line[0] != 35 && line[0] != 33)
+//@   ensures isRule ==> (forall k int :: 0 <= k && k < len(line) ==> !binaryByte(line[k]))
+//@   ensures -1 <= badIdx && badIdx < len(line)
+//@   ensures badIdx >= 0 ==> binaryByte(line[badIdx]) && line[0] != 35 && line[0] != 33
+
+//@ func (p *Parser) result() (r *ParseResult)
+//@   property C15
+//@   modifies nothing
+//@   ensures fresh(r) && r.RulesCount == p.rulesCount && r.Checksum == p.checksum && r.BytesWritten == p.written && r.Title == p.title
+
+// One input line: HTML is rejected as long as nothing has been written; comments, blank lines and the title produce no
+// output; a rule line is written trimmed with a single line feed, counted once, and folded into the CRC.
+//@ func (p *Parser) processLine(dst io.Writer, line []byte, lineNum int) (n int, err error)
+//@   property C15
+//@   modifies *
+//@   callsite (io.Writer).Write(w, b) requires len(b) == old(len(bytes.TrimSpace(line))) + 1
+//@   callsite (io.Writer).Write(w, b) requires b[len(b)-1] == 10
+//@   callsite (io.Writer).Write(w, b) requires forall k int :: 0 <= k && k < len(b) - 1 ==> b[k] == old(bytes.TrimSpace(line)[k])
+//@   ensures html-rejected: old(p.written) == 0 && old(isHTMLLine(bytes.TrimSpace(line))) ==> err == ErrHTML && n == 0 && p.rulesCount == old(p.rulesCount) && p.checksum == old(p.checksum)
+//@   ensures counted-once: p.rulesCount == old(p.rulesCount) || ((p.rulesCount == old(p.rulesCount) + 1 || old(p.rulesCount) == 9223372036854775807) && p.checksum == old(crc32.Update(p.checksum, crc32.IEEETable, bytes.TrimSpace(line))))
+//@   ensures error-not-counted: err != nil && !(p.rulesCount == old(p.rulesCount) + 1) ==> n == 0
+
+//@ func (p *Parser) Parse(dst io.Writer, src io.Reader, buf []byte) (r *ParseResult, err error)
+//@   property C15
+//@   modifies *
+//@   ensures r != nil
+//@   ghost at return: parseOK = (err == nil)
+
+// Before a title has been found, '! Title: x' lines set the title; otherwise as parseLine.
+//@ func (p *Parser) parseLineTitle(line []byte) (badIdx int, isRule bool)
+//@   property C15
+//@   modifies p.title, p.titleFound
+//@   ensures isRule == (badIdx == -1 && len(line) > 0 && line[0] != 35 && line[0] != 33)
+//@   ensures isRule ==> (forall k int :: 0 <= k && k < len(line) ==> !binaryByte(line[k]))
+//@   ensures -1 <= badIdx && badIdx < len(line)
